@@ -183,7 +183,8 @@ func (m *TlvModel) GenReadFrom(buf *bytes.Buffer) error {
 				err = nil
 
 				{{- if (eq $.Model.Ordered true)}}
-				for handled := false; !handled && progress < {{len .Model.Fields}}; progress ++ {
+				handled := false
+				for ; !handled && progress < {{len .Model.Fields}}; progress ++ {
 				{{- else}}
 				if handled := false; true {
 				{{- end}}
@@ -227,6 +228,18 @@ func (m *TlvModel) GenReadFrom(buf *bytes.Buffer) error {
 						return nil, enc.ErrFailToParse{TypeNum: typ, Err: err}
 					}
 				}
+				{{- if (eq $.Model.Ordered true)}}
+				if !handled {
+					// A recognized element that is repeated or out of order: no field
+					// consumed it, so it falls under the rule for unrecognized elements.
+					if !ignoreCritical && {{.IsCritical}} {
+						return nil, enc.ErrUnrecognizedField{TypeNum: typ}
+					}
+					if err = reader.Skip(int(l)); err != nil {
+						return nil, enc.ErrFailToParse{TypeNum: typ, Err: err}
+					}
+				}
+				{{- end}}
 			}
 
 			startPos = reader.Pos()
